@@ -92,6 +92,48 @@ func runC12(c *Ctx) {
 		})
 	}
 	c.Floor("C12.D1-slice-bounded", 2) // (the two decryptors may share one splitting helper)
+	// …and a length test against the cipher's overhead lets a payload of exactly that length through: it is the
+	// encryption of the empty payload
+	for _, f := range c.Funcs(dhashPkg) {
+		instrs(f.SSA, func(in ssa.Instruction) {
+			iff, ok := in.(*ssa.If)
+			if !ok {
+				return
+			}
+			cx := c.E(iff.Cond)
+			if cx.Op != "binop" || len(cx.Args) != 2 {
+				return
+			}
+			isLen := func(y *X) bool { y = strip(y); return y != nil && y.Op == "builtin" && y.Name == "len" }
+			isOv := func(y *X) bool {
+				y = strip(y)
+				return y != nil && (y.Op == "invoke" || y.Op == "call") && strings.HasSuffix(y.Name, "Overhead")
+			}
+			l, r := cx.Args[0], cx.Args[1]
+			if !((isLen(l) && isOv(r)) || (isOv(l) && isLen(r))) {
+				return
+			}
+			// which edge fails? the one leading to a return with a non-nil error
+			rejectsEqual := false
+			for i, succ := range iff.Block().Succs {
+				ret, isRet := succ.Instrs[len(succ.Instrs)-1].(*ssa.Return)
+				if !isRet || len(ret.Results) == 0 || c.RetX(ret, len(ret.Results)-1).Op == "nil" {
+					continue
+				}
+				onTrue := i == 0
+				op := cx.Name
+				if isOv(l) { // overhead OP len: mirror
+					op = map[string]string{"<": ">", ">": "<", "<=": ">=", ">=": "<=", "==": "==", "!=": "!="}[op]
+				}
+				// fails when (len OP overhead) == onTrue; does len == overhead fail?
+				eq := map[string]bool{"<": false, ">": false, "<=": true, ">=": true, "==": true, "!=": false}[op]
+				if eq == onTrue {
+					rejectsEqual = true
+				}
+			}
+			c.Check(!rejectsEqual, "C12.D1-slice-bounded", f.Name+" › tag-length test lets the empty payload through", iff.Pos(), "a ciphertext of exactly the tag length is handed to Open", "a ciphertext whose length equals the cipher's overhead (the encryption of an empty payload) is rejected before Open: the empty payload no longer round-trips")
+		})
+	}
 
 	// ---- D2 determinism ------------------------------------------------------------------------
 	badImp := ""
@@ -709,6 +751,8 @@ func c12Client(c *Ctx) {
 		c.Check(len(acceptEnc(pc, pc.Funcs("ipnicheck/testdata/posex"))) == 1, "C12.D5-client-workflow", "positive example fires (Accept-Encoding)", token.NoPos, "rule found the seeded hand-set Accept-Encoding (and none in find/client)", "rule did not find its positive example: it would pass vacuously")
 	}
 	c.Floor("C12.D5-client-workflow", 8) // (the two store lookups may share one reading helper)
+	sourcesKeepErrorIdentity(c, "C12.D5-sources-keep-error-identity")
+	c.Floor("C12.D5-sources-keep-error-identity", 2)
 }
 
 func c12ValueKey(c *Ctx) {
@@ -871,4 +915,41 @@ func c12ValueKey(c *Ctx) {
 // findClientPkgOf: module-relative path of the package a function belongs to.
 func findClientPkgOf(f *Fn) string {
 	return strings.TrimPrefix(strings.TrimPrefix(f.Pkg.PkgPath, modPath), "/")
+}
+
+// sourcesKeepErrorIdentity: the provider cache tells a cancelled lookup from "no such provider" with
+// errors.Is(err, context.Canceled) — a source that re-words the error of its transport without wrapping it (%v
+// instead of %w) makes a lookup cancelled in flight look like a miss: a negative entry is cached and the provider's
+// results are silently left out of every find for the time-to-live. Shared by C12 (reader-privacy finds go through
+// the cache) and C06.
+func sourcesKeepErrorIdentity(c *Ctx, rule string) {
+	n := 0
+	for _, f := range c.Funcs(pcachePkg) {
+		if f.SSA.Signature.Recv() == nil || (f.SSA.Name() != "Fetch" && f.SSA.Name() != "FetchAll") {
+			continue
+		}
+		n++
+		bad := token.NoPos
+		for _, cs := range c.Calls(f.SSA, Call("fmt.Errorf")) {
+			if len(cs.X.Args) < 2 || cs.X.Args[0].Op != "const" {
+				continue
+			}
+			hasErr := false
+			for _, e := range variadicElems(c, cs.X.Args[1]) {
+				if ev := strip(e); ev != nil && ev.V != nil && isErrorType(ev.V.Type()) {
+					hasErr = true
+				}
+				if mi, ok := e.V.(*ssa.MakeInterface); ok && isErrorType(mi.X.Type()) {
+					hasErr = true
+				}
+			}
+			if hasErr && !strings.Contains(cs.X.Args[0].Name, "%w") {
+				bad = cs.In.Pos()
+			}
+		}
+		c.Check(!bad.IsValid(), rule, f.Name+" › errors keep their identity", f.SSA.Pos(), "errors of the transport are returned as they are or wrapped with %w", "an error is re-worded without wrapping (at "+c.pos(bad)+"): the cache no longer recognises a cancelled lookup and remembers the provider as absent")
+	}
+	if n == 0 {
+		c.Unk(rule, "pcache › sources", token.NoPos, "no provider source found")
+	}
 }
